@@ -599,8 +599,9 @@ impl<T: Sem + CanonicalSerialize + CanonicalDeserialize> Sem for ViaSlice<T> {
         CanonicalSerialize::serialize_with_mode(&s, w, c)
     }
     fn size(&self, c: Compress) -> usize {
+        // the impl for `&[T]` (not the one for `[T]`): same impl as `ser` goes through
         let s: &[T] = &self.0;
-        <[T] as CanonicalSerialize>::serialized_size(s, c)
+        <&[T] as CanonicalSerialize>::serialized_size(&s, c)
     }
     fn deser<R: Read>(r: R, c: Compress, v: Validate) -> Result<Self, SerializationError> {
         Vec::<T>::deserialize_with_mode(r, c, v).map(ViaSlice)
